@@ -436,6 +436,17 @@ _t(
     1,
     "three functions in one generation feeding a reduction (schedules)",
 )
+_t(
+    "T22",
+    [
+        FSpec("f", ["a", "c"], ["lo", "mid", "hi"], "a[i] -> lo[i], mid[i], hi[i]"),
+        FSpec("g", ["mid", "hi"], ["w"], "mid[i], hi[i] -> w[i]"),
+        FSpec("tot", ["lo", "w"], ["r"]),
+    ],
+    lambda n, v: {"a": _lst(v, 0, n[0]), "c": v[6]},
+    1,
+    "three-output function (tuple key of three names), zip of two of them, reduction",
+)
 
 _t(
     "T18",
